@@ -1216,15 +1216,38 @@ theorem writable_reply_ne_readOnly (pre : Predef) (env : Env V) (n : Node J V) (
   | error e => intro hx; simp only [refuse] at hx; injection hx with hx; exact hadm e hres hx
   | ok vw => exact hfin vw.1 vw.2
 
+/-- a payload the parameter's own datatype refuses: the change is refused, nothing is written -/
+theorem change_refused_of_datatype (pre : Predef) (env : Env V) (n : Node J V) (m a : String) (mod : Module J V)
+    (p : Param J V) (hl : lookupParam pre n m a = .ok (mod, p)) (j : J)
+    (hrej : ¬ ∃ v, p.dt.accept j (some p.entry.value) = .ok v) :
+    Reply.isError (handleChange pre env n (.full m a) j).reply = true ∧ (handleChange pre env n (.full m a) j).calls = [] := by
+  have hadm : ∃ e, admitChange env mod p j = .error e := by
+    unfold admitChange
+    split
+    · exact ⟨_, rfl⟩
+    · split
+      · exact ⟨_, rfl⟩
+      · cases ha : p.dt.accept j (some p.entry.value) with
+        | error e => exact ⟨e, rfl⟩
+        | ok v => exact absurd ⟨v, ha⟩ hrej
+  obtain ⟨e, he⟩ := hadm
+  unfold handleChange
+  simp only [target]; rw [hl]; simp only; rw [he]
+  simp [refuse, Reply.isError]
+
 /-- **model_change_probe_ok** (the monitor clause for `change` is sound on the model).  The exchange the model produces
 for ANY `change m:a` — described parameter (read-only, constant or writable), described command or undescribed name —
-satisfies `ProbeOK` against the model's own report, `allowed` being the verdict of the specification's decision list. -/
+satisfies `ProbeOK` against the model's own report, `allowed` being the verdict of the specification's decision list and
+`client` the verdict of a client datatype that refuses only what the parameter's own datatype refuses (the datatype-oracle
+law `AcceptLaw`, here needed in one direction and for this payload only). -/
 theorem model_change_probe_ok [DecidableEq J] (pre : Predef) (env : Env V) (n : Node J V) (hwf : Node.WF pre n)
-    (hno : NoForeignReadOnly env n) (m a : String) (j : J) (allowed : Bool)
-    (hallowed : allowed = true → ∃ m' a' hw v w, changeVerdict pre env n (.full m a) j = .allow m' a' hw v w) :
+    (hno : NoForeignReadOnly env n) (m a : String) (j : J) (allowed client : Bool)
+    (hallowed : allowed = true → ∃ m' a' hw v w, changeVerdict pre env n (.full m a) j = .allow m' a' hw v w)
+    (hclient : client = false → ∀ mod p, lookupParam pre n m a = .ok (mod, p) →
+      ¬ ∃ v, p.dt.accept j (some p.entry.value) = .ok v) :
     ProbeOK (describe pre n)
       ⟨.change, m, a, (handleChange pre env n (.full m a) j).reply, (handleChange pre env n (.full m a) j).calls, false,
-       allowed, false, false⟩ := by
+       allowed, false, client⟩ := by
   unfold ProbeOK
   simp only
   cases hd : findDesc (describe pre n) m a with
@@ -1244,7 +1267,8 @@ theorem model_change_probe_ok [DecidableEq J] (pre : Predef) (env : Env V) (n : 
       exact ⟨rfl, rfl⟩
     · intro hro
       obtain ⟨mod, p, hl, hr, hc, _⟩ := flags_predict_writable pre env n hwf m a ad hd hro j
-      refine ⟨writable_reply_ne_readOnly pre env n hno m a mod p hl hr hc j, ?_⟩
+      refine ⟨writable_reply_ne_readOnly pre env n hno m a mod p hl hr hc j, ?_,
+        fun hcl => change_refused_of_datatype pre env n m a mod p hl j (hclient hcl mod p hl)⟩
       intro hal
       obtain ⟨m', a', hw, v, w, hv⟩ := hallowed hal
       have hver := handleChange_verdict pre env n hwf (.full m a) j
@@ -1320,13 +1344,14 @@ open Frappy.Props.C04.Example in
 (it reaches the driver), a change of the constant `_k` (ReadOnly), a read of `_k` (the constant) -/
 example :
     ProbeOK (describe pre node) ⟨.change, "m", "target", (handleChange pre env node (.full "m" "target") 20).reply,
-      (handleChange pre env node (.full "m" "target") 20).calls, false, true, false, false⟩ ∧
+      (handleChange pre env node (.full "m" "target") 20).calls, false, true, false, true⟩ ∧
     ProbeOK (describe pre node) ⟨.change, "m", "_k", (handleChange pre env node (.full "m" "_k") 20).reply,
-      (handleChange pre env node (.full "m" "_k") 20).calls, false, false, false, false⟩ ∧
+      (handleChange pre env node (.full "m" "_k") 20).calls, false, false, false, true⟩ ∧
     ProbeOK (describe pre node) ⟨.read, "m", "_k", (handleRead pre env node (.full "m" "_k") false).reply,
       (handleRead pre env node (.full "m" "_k") false).calls, false, false, false, false⟩ :=
-  ⟨model_change_probe_ok pre env node wf Example.noForeign "m" "target" 20 true (fun _ => ⟨"m", "target", true, 20, 20, rfl⟩),
-   model_change_probe_ok pre env node wf Example.noForeign "m" "_k" 20 false (fun h => by cases h),
+  ⟨model_change_probe_ok pre env node wf Example.noForeign "m" "target" 20 true true (fun _ => ⟨"m", "target", true, 20, 20, rfl⟩)
+     (fun h => by cases h),
+   model_change_probe_ok pre env node wf Example.noForeign "m" "_k" 20 false true (fun h => by cases h) (fun h => by cases h),
    model_read_probe_ok pre env node wf "m" "_k" 0⟩
 
 /-! non-vacuity for the theorems relative to the datatype-oracle laws: a node whose parameter takes numbers up to 100
@@ -1422,7 +1447,7 @@ example : ∃ ad, findDesc (describe pre node3) "m" "_p" = some ad ∧ client ad
 
 open Frappy.Props.C04.Example Example3 in
 /-- `described_datainfo_equiv`: the described datainfo accepts 100 and rejects 101, as the node does -/
-example : ∀ j, ∃ mod p, lookupParam pre node3 "m" "_p" = .ok (mod, p) ∧
+theorem Example3.equiv3 : ∀ j, ∃ mod p, lookupParam pre node3 "m" "_p" = .ok (mod, p) ∧
     (client 100 j = true ↔ ∃ v, p.dt.accept j (some p.entry.value) = .ok v) := by
   intro j
   cases h : findDesc (describe pre node3) "m" "_p" with
@@ -1434,6 +1459,16 @@ example : ∀ j, ∃ mod p, lookupParam pre node3 "m" "_p" = .ok (mod, p) ∧
       rw [h] at this; simpa using this
     have := described_datainfo_equiv pre node3 wf3 client acceptLaw3 "m" "_p" ad h hk.1 j
     rw [hk.2] at this; exact this
+
+open Frappy.Props.C04.Example Example3 in
+/-- `change_refused_of_datatype` (the clause "a payload the described datainfo excludes is refused, nothing is written"):
+200 is beyond the described bound 100 (`client 100 200 = false`) — the change is refused and no driver is called -/
+example : client 100 200 = false ∧
+    Reply.isError (handleChange pre env3 node3 (.full "m" "_p") 200).reply = true ∧
+    (handleChange pre env3 node3 (.full "m" "_p") 200).calls = [] := by
+  obtain ⟨mod, p, hl, hiff⟩ := Example3.equiv3 200
+  exact ⟨by decide +kernel, change_refused_of_datatype pre env3 node3 "m" "_p" mod p hl 200
+    (fun hv => absurd (hiff.2 hv) (by decide +kernel))⟩
 
 /-! non-vacuity for the command theorems: the example node plus a command `go` taking a number up to 5 -/
 namespace Example2
